@@ -185,10 +185,10 @@ PROPS = {
    "self-referential and mutually recursive types with finite values, pointers, interfaces holding every dynamic type, "
    "nil vs empty containers, unsupported kinds (must be refused with an error, never a crash). Oracle independent of the "
    "mirrors: result ok and deeply equal to the original modulo nil = empty, omitted-when-empty / dropped fields zero.",
-   "Kernel-checked: scalar round trip for all widths and values; the two halves for containers — fold side = documented rules on the universe goodT (C12 fold_agrees / fold_refuses: a type that cannot be handled is REFUSED, never a crash), unfold side = typed assignment for primitive slices / maps and the generic clause (C13), no panic on typed targets (C14) — and the codec legs (C01 round trips for all three formats); their composition over structs and pointers by mirror + correspondence (`fu`, four paths) + oracle.",
+   "Kernel-checked: the COMPOSED statement Fold-then-Unfold = identity on the direct path for scalars of every kind and width (bit-exact floats), []T, map[string]T under every iteration order, interface{} holding these, *T (PropsFu.C11 fold_unfold_scalar / _slice / _map / _iface_slice / _ptr, in the vocabulary of the op `fu`, no size bound); scalar round trip for all widths and values; the two halves for containers — fold side = documented rules on the universe goodT (C12 fold_agrees / fold_refuses: a type that cannot be handled is REFUSED, never a crash), unfold side = typed assignment for primitive slices / maps and the generic clause (C13), no panic on typed targets (C14) — and the codec legs (C01 round trips for all three formats); their composition over structs and pointers by mirror + correspondence (`fu`, four paths) + oracle.",
    tb=["models: SF/Gotype/Fold.lean, SF/Gotype/Unfold.lean, codec mirrors; composition SF/Ops/Fu.lean; translation between the two type universes SF/Gotype/Translate.lean"],
    assumptions=GOTYPE_ASSUME,
-   partial="the composed statement fold_unfold_id over all supported types and values (struct and pointer targets on the unfold side) is not proved as ONE theorem; decided by oracle on generated types x values x paths"),
+   partial="the composed statement for structs, nested containers, pointer chains and named types is not proved as ONE theorem (the halves are: C12 fold = rules, C13 typed assignment, C14 no panic, C01 codec legs); decided there by the oracle on generated types x values x four paths; *float32 holding a signalling NaN comes back quieted (reading: any NaN of the same width)"),
  "C12": P("DESIGN.md 7 C12",
    "Lean 4 proof (the Fold mirror agrees with the independent Rules specification on a decidable universe of types x all their values, both directions; tag parser = documented tag grammar for every tag string) + differential correspondence of the Fold mirror + Rules as oracle",
    "fold_agrees / fold_agrees_inputs: for EVERY type of the universe goodT (all scalar kinds, interface{}, slices, arrays incl. typed-array fast paths, pointers, "
